@@ -38,6 +38,7 @@ int main(int argc, char** argv){
     int got = 77; int rc = 1; try { rc = splinetable_read_key(&h, SPLINETABLE_INT, "ABSENT", &got); } catch (std::exception& e) { fail(std::string("exception left splinetable_read_key: ") + e.what()); }
     int tg = 0; bool tr = t.read_key("ABSENT", tg);
     if ((rc != 0) != !tr) fail("splinetable_read_key(\"ABSENT\") returned " + std::to_string(rc) + " (success) although read_key returned false: the caller's variable was not written");
+    { double dg = 0; int rcd = 1; try { rcd = splinetable_read_key(&h, SPLINETABLE_DOUBLE, "ABSENT", &dg); } catch (std::exception& e) { fail(std::string("exception left splinetable_read_key: ") + e.what()); } double td = 0; if ((rcd != 0) != !t.read_key("ABSENT", td)) fail("splinetable_read_key(SPLINETABLE_DOUBLE, \"ABSENT\") returned " + std::to_string(rcd) + " (success) although read_key returned false"); }
     int v = 5; try { rc = splinetable_write_key(&h, SPLINETABLE_INT, "NAXIS", &v); } catch (std::exception& e) { fail(std::string("exception left splinetable_write_key: ") + e.what()); }
     if (rc == 0) fail("splinetable_write_key of a reserved key reported success");
     splinetable_free(&h); free(mb.first);
